@@ -939,6 +939,10 @@ pub fn run_batch<P: Property>(p: &P, cfg: &BatchCfg) -> i32 {
         .set("probes", probes)
         .set("probes_at_zero", J::Arr(zero_probes))
         .set(
+            "probes_zero_by_construction",
+            p.probes_zero_by_construction().iter().fold(J::obj(), |o, (n, why)| o.set(*n, J::s(why.to_string()))),
+        )
+        .set(
             "config_lattice",
             J::obj()
                 .set("covered", J::u(agg.lattice.len() as u64))
@@ -1033,6 +1037,7 @@ pub fn run_batch<P: Property>(p: &P, cfg: &BatchCfg) -> i32 {
         .enumerate()
         .filter(|(i, _)| agg.probes[*i] == 0)
         .map(|(_, n)| *n)
+        .filter(|n| !p.probes_zero_by_construction().iter().any(|(z, _)| z == n))
         .collect();
     if !zp.is_empty() {
         println!("note: probes at zero: {:?}", zp);
